@@ -451,6 +451,133 @@ def spec_zone_forms(ctx):
                     ctx.nt(("view-filled-history", dec, order, step))
 
 
+READ_SRC = """
+@{DEC}
+def main(sites: ilist.IList[tuple[int, int], Any], more: ilist.IList[tuple[int, int], Any]):
+    a = filled.vacate(CZ, sites)
+    b = filled.fill(CZ, more)
+    lit = grid.from_positions([0.0, 1.0, 4.0], [0.0, 2.0])
+    c = filled.vacate(lit, sites)
+    d = filled.fill(filled.vacate(CZ, sites), more)
+    return (grid.positions(a), grid.positions(b), grid.positions(c), grid.positions(d), grid.shape(a), grid.get_xpos(a), grid.get_ypos(b),
+            grid.x_bounds(a), grid.y_bounds(c), grid.positions(filled.get_parent(a)), a, b, c, d)
+"""
+
+PARENT_SRC = """
+@move
+def bare(loaded: filled.FilledGrid[Any, Any]):
+    return filled.get_parent(loaded)
+
+@move
+def damaged(z: grid.Grid[Any, Any], lost: ilist.IList[tuple[int, int], Any]):
+    return filled.vacate(z, lost)
+
+@move
+def main(zone: grid.Grid[Any, Any], lost: ilist.IList[tuple[int, int], Any], sites: ilist.IList[tuple[int, int], Any]):
+    v = damaged(zone, lost)
+    p = filled.get_parent(v)
+    w = filled.fill(bare(v), sites)
+    q = filled.get_parent(filled.fill(zone, sites))
+    u = filled.fill(filled.get_parent(filled.vacate(zone, lost)), sites)
+    return (v, p, w, q, u, grid.positions(w), grid.positions(u), grid.shape(q))
+"""
+
+
+def _same_value(x, y):
+    if hasattr(x, "vacancies") or hasattr(y, "vacancies") or hasattr(x, "x_positions"):
+        return type(x).__name__ == type(y).__name__ and show_val(x) == show_val(y) and x == y and hash(x) == hash(y)
+    flat = lambda v: [flat(e) for e in (v.data if hasattr(v, "data") else v)] if isinstance(v, (list, tuple)) or hasattr(v, "data") else v
+    return flat(x) == flat(y)
+
+
+def readings_and_passes(ctx):
+    """(1) what the grid statements READ off a filled grid (positions, shape, axis positions, bounds) when the zone is a compile-time
+    constant and the site lists arrive at run time, in every kernel kind and with the zone injected by the spec; (2) get_parent / fill /
+    vacate through helper kernels after the library's own Fold and AggressiveUnroll passes (once and to a fixpoint), for a zone argument
+    that is a plain grid and one that is ALREADY a filled grid: always the values of the Python methods"""
+    from bloqade.geometry.dialects.grid import Grid
+    from bloqade.shuttle import prelude
+    from bloqade.shuttle.passes.fold import AggressiveUnroll
+    from kirin.dialects import ilist
+    FGc = FG()
+    CZ = Grid.from_positions([0.0, 2.0, 3.0], [0.0, 1.5])
+    lit = Grid.from_positions([0.0, 1.0, 4.0], [0.0, 2.0])
+    n = 0
+    for dec in ("move", "kernel", "tweezer"):
+        try:
+            m = kernels.define(READ_SRC.replace("{DEC}", dec), kernel=prelude.kernel, CZ=CZ)["main"]
+        except Exception as e:
+            ctx.evaluations += 1
+            ctx.fail({"kind": "kernel-rejected", "decorator": dec, "form": "readings of a filled constant zone"}, {"readings": True, "decorator": dec},
+                     f"@{dec} rejects a kernel reading positions / shape of filled grids over a constant zone: {type(e).__name__}: {str(e)[:140]}")
+            continue
+        for sites, more in (([(0, 0), (2, 1)], [(1, 1)]), ([], [(0, 0), (0, 1), (2, 0)]), ([(1, 0), (1, 1), (1, 0)], [(1, 0)])):
+            a, b, c = FGc.vacate(CZ, sites), FGc.fill(CZ, more), FGc.vacate(lit, sites)
+            d = FGc.fill(FGc.vacate(CZ, sites), more)
+            want = (a.positions, b.positions, c.positions, d.positions, a.shape, tuple(a.x_positions), tuple(b.y_positions), a.x_bounds(), c.y_bounds(),
+                    a.parent.positions, a, b, c, d)
+            ctx.evaluations += 1
+            n += 1
+            rep = {"readings": True, "decorator": dec, "sites": sites, "more": more}
+            try:
+                got = m(ilist.IList(sites), ilist.IList(more))
+            except Exception as e:
+                ctx.fail({"kind": "kernel-raises", "decorator": dec, "form": "readings of a filled constant zone"}, rep, f"@{dec} kernel reading filled grids raises {type(e).__name__}: {str(e)[:120]}")
+                continue
+            names = ["positions(vacate)", "positions(fill)", "positions(vacate literal grid)", "positions(fill(vacate))", "shape", "get_xpos", "get_ypos", "x_bounds", "y_bounds",
+                     "positions(get_parent)", "a", "b", "c", "d"]
+            bad = [nm for nm, x, y in zip(names, got, want) if not _same_value(x, y)]
+            if bad:
+                k = names.index(bad[0])
+                ctx.fail({"kind": "kernel-vs-method", "decorator": dec, "form": "readings of a filled constant zone", "reading": bad[0]}, rep,
+                         f"@{dec} kernel over a constant zone with run-time sites {sites} / {more}: {bad[0]} is {str(got[k])[:110]} but the Python methods give {str(want[k])[:110]}")
+            else:
+                ctx.nt(("readings", dec, len(sites)))
+    plain = Grid.from_positions([0.0, 1.0, 2.0], [0.0, 1.0])
+    defective = FGc.vacate(plain, [(1, 1)])
+    lost, sites = [(0, 0)], [(2, 1), (0, 1)]
+    for treatment in ("as compiled", "Fold", "AggressiveUnroll", "AggressiveUnroll to a fixpoint"):
+        try:
+            m = kernels.define(PARENT_SRC)["main"]
+            if treatment == "Fold":
+                from bloqade.shuttle.passes.fold import Fold
+                Fold(prelude.move)(m)
+            elif treatment == "AggressiveUnroll":
+                AggressiveUnroll(prelude.move)(m)
+            elif treatment != "as compiled":
+                AggressiveUnroll(prelude.move).fixpoint(m)
+        except Exception as e:
+            ctx.evaluations += 1
+            ctx.fail({"kind": "kernel-rejected", "decorator": "move", "form": "get_parent through helpers", "treatment": treatment}, {"parent_passes": True, "treatment": treatment},
+                     f"{treatment}: a kernel taking get_parent of helper results cannot be processed: {type(e).__name__}: {str(e)[:140]}")
+            continue
+        for zname, zone in (("a plain grid", plain), ("an already filled grid", defective)):
+            v = FGc.vacate(zone, lost)
+            w = FGc.fill(v.parent, sites)
+            q = FGc.fill(zone, sites).parent
+            u = FGc.fill(FGc.vacate(zone, lost).parent, sites)
+            want = (v, v.parent, w, q, u, w.positions, u.positions, q.shape)
+            ctx.evaluations += 1
+            n += 1
+            rep = {"parent_passes": True, "treatment": treatment, "zone": zname}
+            try:
+                got = m(zone, ilist.IList(lost), ilist.IList(sites))
+            except Exception as e:
+                ctx.fail({"kind": "kernel-raises", "decorator": "move", "form": "get_parent through helpers", "treatment": treatment}, rep,
+                         f"{treatment}, zone {zname}: the kernel raises {type(e).__name__}: {str(e)[:120]}")
+                continue
+            names = ["vacate via helper", "get_parent", "fill(get_parent via helper)", "get_parent(fill)", "fill(get_parent(vacate))", "positions", "positions", "shape"]
+            bad = [k for k, (x, y) in enumerate(zip(got, want)) if not _same_value(x, y)]
+            if bad:
+                k = bad[0]
+                ctx.fail({"kind": "kernel-vs-method", "decorator": "move", "form": "get_parent through helpers", "treatment": treatment, "zone": zname}, rep,
+                         f"{treatment}, zone {zname}: {names[k]} is {show_val(got[k])[:110] if hasattr(got[k], 'shape') else str(got[k])[:110]} but the Python methods give "
+                         f"{show_val(want[k])[:110] if hasattr(want[k], 'shape') else str(want[k])[:110]}")
+            else:
+                ctx.nt(("parent-passes", treatment, zname))
+    ctx.count("readings of filled constant zones (3 kernel kinds) and get_parent chains after the fold passes: agree with the methods", n)
+
+
 def translated_filled_grid(ctx):
     """class FilledGrid translated from source on every run (harness/gen/filled_translate.py: set expressions, generators over
     product / enumerate / range, two worlds for isinstance(x, FilledGrid); fail-closed) and proved equal to Model/Filled.v"""
@@ -470,6 +597,7 @@ def translated_filled_grid(ctx):
 
 
 def run(ctx):
+    readings_and_passes(ctx)
     translated_filled_grid(ctx)
     ctx.rule = ("chains of fill/vacate/shift/scale/repeat/get_view/get_parent from a grid built from positions: exhaustive = every vacancy subset of "
                 "the 1x3, 2x2, 2x3 grids x a fixed list of second operations (all views of length <= 2 incl. repeated and reversed indices, "
@@ -530,6 +658,15 @@ def run(ctx):
 
 
 def replay(data):
+    if data["input"].get("readings") or data["input"].get("parent_passes"):
+        class C:
+            def __init__(s): s.fails, s.evaluations = [], 0
+            def fail(s, sig, rep, what): s.fails.append(what)
+            def nt(s, *a): pass
+            def count(s, *a): pass
+        c = C()
+        readings_and_passes(c)
+        return bool(c.fails), (c.fails or ["kernel-level readings and get_parent chains agree with the methods"])[0][:200]
     inp = data["input"]
     if "form_src" in inp:
         class K:
